@@ -184,7 +184,7 @@ FORM_CREDS = [None, ("c2", "s2"), ("c2", "bad"), ("c2", ""), ("zz", "s2"), ("c1"
               ("pub", ""), ("c1", None), ("", "s1"), ("zz", None)]
 
 
-def run_authenticate(ctx, clients, header, form_cred, query_id, assertion, methods, endpoint, used, shared=None):
+def run_authenticate(ctx, clients, header, form_cred, query_id, assertion, methods, endpoint, used, shared=None, query_secret=None):
     """shared: a (ClientAuthentication, used-jti set) pair that lives across requests, as it does in a server process"""
     m = ctx.model
     form = {}
@@ -198,6 +198,11 @@ def run_authenticate(ctx, clients, header, form_cred, query_id, assertion, metho
     if query_id is not None:
         uri += "?client_id=" + query_id
         data = dict({"client_id": query_id}, **form)
+    if query_secret is not None:
+        # a secret in the request URI is not a form-post secret (RFC 6749 section 2.3.1: "MUST NOT be included in the request URI")
+        uri += ("&" if "?" in uri else "?") + "client_secret=" + query_secret
+        data = dict({"client_secret": query_secret}, **data)
+        data.update(form)
     if assertion is not None:
         form.update(assertion[0])
         mreq.update(assertion[1])
@@ -226,7 +231,7 @@ def run_authenticate(ctx, clients, header, form_cred, query_id, assertion, metho
         time.time = real_time
     mod = m.call("authenticate", {"token_url": TOKEN_URL, "now": NOW, "registry": REG, "request": mreq,
                                   "methods": methods, "endpoint": endpoint, "used_jti": sorted(used)})
-    case = {"header": header, "form": form_cred, "query_id": query_id,
+    case = {"header": header, "form": form_cred, "query_id": query_id, "query_secret": query_secret,
             "assertion": None if assertion is None else assertion[1].get("assertion_claims"),
             "assertion_flags": None if assertion is None else [assertion[1]["assertion_sig_ok"], assertion[1]["assertion_wellformed"], assertion[1]["assertion_type"][-10:]],
             "methods": methods, "endpoint": endpoint}
@@ -298,6 +303,12 @@ def run(ctx):
         for fc in (None, ("pub", None), ("c2", "s2"), ("pub", "x")):
             for ms in METHOD_LISTS:
                 run_authenticate(ctx, clients, None, fc, q, None, ms, "token", {"used-1"})
+    # credentials in the request URI: a client_secret there authenticates nobody through client_secret_post
+    for q, qs in (("c2", "s2"), ("c2", "bad"), ("c1", "s1"), ("pub", ""), (None, "s2")):
+        for fc in (None, ("c2", None), ("c2", ""), ("zz", None)):
+            for ms in METHOD_LISTS:
+                for ep in ("token", "revocation"):
+                    run_authenticate(ctx, clients, None, fc, q, None, ms, ep, {"used-1"}, query_secret=qs)
     # 3. assertions
     for v in ASSERTION_VARIANTS:
         for ms in METHOD_LISTS:
